@@ -16,12 +16,14 @@ from . import common
 from .c05 import FragStream
 
 PROPERTY = 'C04'
-LEAN_TARGETS = ['CpProofs.C04', 'drv_c04']
+LEAN_TARGETS = ['CpProofs.C04', 'CpProofs.C04Sim', 'drv_c04']
 DRIVER = 'drv_c04'
 THEOREMS = [
     'CpProofs.C04.C04_framing_partial',
     'CpProofs.C04.C04_framing_full_false',
     'CpProofs.C04.C04_content_independent_of_threshold',
+    'CpProofs.C04.C04_framing_concrete',
+    'CpProofs.C04.C04_concrete_refines',
     'CpProofs.C04.C04_readline_is_cursor',
     'CpProofs.C04.C04_finish_is_cursor',
     'CpProofs.C04.C04_init_enough',
@@ -248,8 +250,10 @@ def run_real(case):
 # ----------------------------------------------------------------------------------------------
 def model_line(case):
     body = serialize(case)
-    return '%s %d %s' % (case['boundary'].encode('latin-1').hex() or '-', case.get('maxram', 1000),
-                         body.hex() or '-')
+    conn = body + bytes.fromhex(case.get('beyond_hex', ''))
+    return '%s %d %d %s %s %s' % (case['boundary'].encode('latin-1').hex() or '-', case.get('maxram', 1000),
+                                  case.get('bufsize', 8192), 'N' if case.get('chunked') else len(body),
+                                  ','.join(map(str, case.get('frag', []))) or '-', conn.hex() or '-')
 
 
 def _unhex(x):
@@ -301,7 +305,7 @@ def parse_model(line, case):
     if undec:
         return {'status': 400, 'params': None, 'parts': None, 'err': 'decode'}
     return {'status': 200, 'params': params, 'parts': parts, 'storage': storage, 'groups': groups,
-            'consumed': len(serialize(case)) - int(kv['rest'])}
+            'off': None if kv['off'] == 'N' else int(kv['off'])}
 
 
 # ----------------------------------------------------------------------------------------------
@@ -549,6 +553,9 @@ def check_cases(ctx, cases, compare=True, stats=True):
             elif obs['status'] == 200 and m['status'] == 200 and case.get('subtype', 'form-data') == 'form-data' \
                     and obs['order'] != [[k, len(v)] for k, v in m['groups']] and not unknown_fail:
                 ctx.disagree(case, obs['order'], m['groups'], 'parameter dict: key order / number of values')
+            elif obs['status'] == 200 and m['status'] == 200 and m.get('off') is not None \
+                    and m['off'] != obs['off'] and not unknown_fail:
+                ctx.disagree(case, obs['off'], m['off'], 'stream offset after the request')
             elif obs['status'] == 200 and m['status'] == 200 and obs.get('storage') is not None \
                     and case.get('subtype', 'form-data') == 'form-data' and obs['storage'] != m['storage'] \
                     and not unknown_fail:
@@ -591,7 +598,7 @@ def run(ctx):
         from .c05 import merge_worker
         nproc = 12
         seeds = [ctx.rng.randrange(1 << 30) for _ in range(nproc * 3)]
-        if ctx.model(['42 5 -']) is None:
+        if ctx.model(['42 5 8 N - -']) is None:
             raise common.HarnessError('driver unavailable in thorough tier')
         for res in common.parallel_map(_worker, [(s, 3000) for s in seeds], procs=nproc):
             merge_worker(ctx, res)
